@@ -19,6 +19,8 @@ type Check struct {
 	Bound      func(tier string) int // deviation bound per tier
 	ShardDepth int
 	NoBubble   bool
+	// LeaksMatter: goroutines left blocked when an execution ends are a violation of this property.
+	LeaksMatter bool
 	// Custom replaces the generic explorer entirely (BFS / scheduler engines).
 	Custom func(t *testing.T, e *mc.Explorer) *mc.ShardResult
 	// PreReplay returns choice vectors that must be executed before replaying the given one.
@@ -46,13 +48,14 @@ func explorerFor(c *Check) *mc.Explorer {
 		tier = "quick"
 	}
 	e := &mc.Explorer{
-		Property:   c.ID,
-		Tier:       tier,
-		Shards:     envInt("VERIF_SHARDS", 1),
-		Shard:      envInt("VERIF_SHARD", 0),
-		ShardDepth: c.ShardDepth,
-		NoBubble:   c.NoBubble,
-		Run:        c.Run,
+		Property:    c.ID,
+		Tier:        tier,
+		Shards:      envInt("VERIF_SHARDS", 1),
+		Shard:       envInt("VERIF_SHARD", 0),
+		ShardDepth:  c.ShardDepth,
+		NoBubble:    c.NoBubble,
+		LeaksMatter: c.LeaksMatter,
+		Run:         c.Run,
 	}
 	if c.Bound != nil {
 		e.Bound = c.Bound(tier)
